@@ -253,6 +253,8 @@ def run_instance(modname, obname, prop, params, cfg):
         core.ABSTRACT_BITS = None
         core.ABSTRACT_DIV_BITS = None
         core.INT_FIRST = False
+        instr.RANDOM_SYMBOLIC = True
+        core.DIV_WITNESS = True
         return ob.fn(ex, **params)
 
     try:
